@@ -1311,7 +1311,7 @@ func decoderLoopConsumes(c *cx, id string, in func(f *eng.Fn) bool) int {
 				// `return d.Skip()` in the arm of the last expected child skips only
 				// the child, the parent's end tag stays in the stream and the caller's
 				// DecodeElement fails with "did not consume entire element".
-				if id2 := strings.Replace(id, ".", ".", 1); bad == "" {
+				if id2 := strings.Replace(id, ".", ".", 1); bad == "" && !isStanzaHandler(f) {
 					stopIter := func(q eng.Point, nd ast.Node) bool {
 						if consumes(q, nd) {
 							return true
@@ -1417,7 +1417,7 @@ func respIterContract(c *cx, id string) {
 func decoderLoopVisitsEveryChild(c *cx, id string, in func(f *eng.Fn) bool) int {
 	n := 0
 	for _, f := range c.allFns() {
-		if f.Body == nil || !in(f) {
+		if f.Body == nil || !in(f) || isStanzaHandler(f) {
 			continue
 		}
 		g := f.Graph()
@@ -1466,4 +1466,22 @@ func decoderLoopVisitsEveryChild(c *cx, id string, in func(f *eng.Fn) bool) int 
 		}
 	}
 	return n
+}
+
+// isStanzaHandler: the function implements a stanza handler (it is handed the
+// element's tokens as an xmlstream.TokenReadEncoder). A handler may stop
+// reading wherever it likes - the serve loop discards what is left of the
+// element after it returns (C08.4) - so the rules about consuming a whole
+// parent element (E-dec6, E-dec7) are about decoders, not about handlers.
+func isStanzaHandler(f *eng.Fn) bool {
+	sig := f.Sig()
+	if sig == nil {
+		return false
+	}
+	for i := 0; i < sig.Params().Len(); i++ {
+		if eng.TypeStr(sig.Params().At(i).Type()) == "mellium.im/xmlstream.TokenReadEncoder" {
+			return true
+		}
+	}
+	return false
 }
